@@ -30,7 +30,7 @@ def check(ctx, rep):
     else:
         b = util.bexpr(ctx, se, se.ret)
         want = ("H", (("text", P(1)), ("le", "u32", ("int", 0)), ("le", "u32", P(4)), ("le", "u32", P(3)), P(2)))
-        rep.check(b == want, "transcript", WSP, "sha1", show_b(b), "expected %s, found %s" % (show_b(want), show_b(b)), se.body.loc())
+        rep.check(b == util.cb(want), "transcript", WSP, "sha1", show_b(b), "expected %s, found %s" % (show_b(want), show_b(b)), se.body.loc())
         sig = [fb.ty(i).s for i in se.body.d["inputs"]]
         rep.check(sig[2:] == ["u32", "u32"], "transcript", WSP, "seed-width", "both seeds are u32", "seed parameters are %s" % sig[2:])
     for mod, (feat, ccrypto, scrypto) in MODS.items():
